@@ -314,6 +314,73 @@ func runC17(c *fw.Ctx) {
 				c.Count("repaired_child_merged_into_parent", 1)
 			}
 		}
+		// sync into a layered trie, then persist: SaveChanges to the lower store, fresh trie on that store alone
+		if len(removed) > 0 && si%4 == 2 && !c.Violated() {
+			lower := util.NewMemoryNodeDB()
+			for i, n := range nodes {
+				if !removed[i] {
+					_ = lower.PutNode(n.Key, n.Node)
+				}
+			}
+			L := lab.NewMPT(util.NewLevelNodeDB(util.NewMemoryNodeDB(), lower, false), mv, root)
+			if err := L.MergeDB(donor, root, nil); err != nil {
+				fail("MergeDB on a layered trie failed: %v", err)
+			} else if err := L.SaveChanges(context.Background(), lower, false); err != nil {
+				fail("SaveChanges after the sync failed: %v", err)
+			} else {
+				F3 := lab.NewMPT(lower, mv, root)
+				if has, _ := F3.HasMissingNodes(context.Background()); has {
+					fail("after sync (MergeDB) and SaveChanges a fresh trie on the saved store still has missing nodes")
+				} else if f := lab.CheckMap(F3, mdl, nil); f != "" {
+					fail("after sync and SaveChanges a fresh trie on the saved store reads: %s", f)
+				}
+				c.Count("synced_state_saved_and_reread", 1)
+			}
+		}
+		// the donor is a layered store whose own trie has moved on since (replaced nodes are only marked deleted there):
+		// every node of the old root is still physically in it, so the repair of the old root must succeed
+		if len(removed) > 0 && si%4 == 3 && !c.Violated() {
+			dprev, dcur := util.NewMemoryNodeDB(), util.NewMemoryNodeDB()
+			for i, n := range nodes {
+				if i%2 == 0 {
+					_ = dprev.PutNode(n.Key, n.Node)
+				} else {
+					_ = dcur.PutNode(n.Key, n.Node)
+				}
+			}
+			ldonor := util.NewLevelNodeDB(dcur, dprev, false)
+			D := lab.NewMPT(ldonor, mv+1, root)
+			for k := 0; k < 4; k++ { // the donor's trie moves on
+				p := g.Pick(lab.SortedKeys(mdl))
+				if r.Intn(2) == 0 {
+					_, _ = D.Delete(util.Path(p))
+				} else {
+					_, _ = D.Insert(util.Path(p), &lab.Val{B: []byte("moved-on")})
+				}
+			}
+			// nodes of the old root that the moved-on trie deleted from the donor's current level are put back (the
+			// lower level keeps everything, deletes are not propagated)
+			for i, n := range nodes {
+				if i%2 == 1 {
+					_ = dcur.PutNode(n.Key, n.Node)
+				}
+			}
+			tgt := util.NewMemoryNodeDB()
+			for i, n := range nodes {
+				if !removed[i] {
+					_ = tgt.PutNode(n.Key, n.Node)
+				}
+			}
+			R := lab.NewMPT(tgt, mv, root)
+			if err := R.MergeDB(ldonor, root, nil); err != nil {
+				fail("MergeDB from a layered donor failed: %v", err)
+			} else if has, _ := lab.NewMPT(tgt, mv, root).HasMissingNodes(context.Background()); has {
+				fail("repair of the old root from a layered donor whose own trie has moved on leaves missing nodes although the donor still holds every node")
+			} else if f := lab.CheckMap(lab.NewMPT(tgt, mv, root), mdl, nil); f != "" {
+				fail("after repair from a layered donor: %s", f)
+			}
+			c.Count("repairs_from_layered_donor", 1)
+		}
 		c.Count("removal_sets", 1)
 		c.Count("removal:"+setKinds[si], 1)
 		if mv != int64(nver) || len(origins) > 1 {
@@ -349,7 +416,7 @@ func init() {
 		Rule: "each case builds a trie over 1..4 versions (so node origins differ) and then, for every single reachable non-root node (up to 24; exhaustive for small tries), 3 whole subtrees, 4 scattered subsets and the empty set, " +
 			"copies the trie into a store (memory / layered / persistent) without the removed nodes and a donor store with them. A trie opened at a version equal to or above the creating versions must: report HasMissingNodes iff the frontier is non-empty; " +
 			"GetAllMissingNodes == frontier (absent nodes reachable through present ones, computed by the harness); lookups through an absent node fail with ErrNodeNotFound, others return the model value, never-stored paths never return data; partial iteration yields only true pairs; " +
-			"after MergeDB(donor): content complete (also for a fresh trie on the repaired store), root unchanged, HasMissingNodes false, donor snapshot (key->encoding) byte-identical; for a third of the removal sets the repair is repeated through a trie whose cache is warm (it read the complete state before the nodes were deleted from its store) and judged by a fresh trie; for a quarter the repair runs in a child trie whose changes (plus one insert) are then merged into a parent trie of another version, after which the donor snapshot must still be identical. non-trivial/distinct = (trie, removal set) pairs with a non-empty removal",
+			"after MergeDB(donor): content complete (also for a fresh trie on the repaired store), root unchanged, HasMissingNodes false, donor snapshot (key->encoding) byte-identical; for a third of the removal sets the repair is repeated through a trie whose cache is warm (it read the complete state before the nodes were deleted from its store) and judged by a fresh trie; for a quarter the repair runs in a child trie whose changes (plus one insert) are then merged into a parent trie of another version, after which the donor snapshot must still be identical; for a quarter the sync runs in a layered trie followed by SaveChanges to the lower store, which a fresh trie must read completely; for a quarter the donor is a layered store whose own trie has moved on since. non-trivial/distinct = (trie, removal set) pairs with a non-empty removal",
 		Cases: func(tier string) int {
 			if tier == "thorough" {
 				return 120000
@@ -357,7 +424,7 @@ func init() {
 			return 4800
 		},
 		Run:    runC17,
-		Floors: map[string]int64{"tries": 3000, "removal_sets": 50000, "removal:single": 30000, "removal:subtree": 9000, "removal:scattered": 12000, "blocked_lookups": 50000, "repairs_with_foreign_origin": 20000, "tries_with_mixed_origins": 1000, "warm_cache_repairs": 10000, "repaired_child_merged_into_parent": 8000},
+		Floors: map[string]int64{"tries": 3000, "removal_sets": 50000, "removal:single": 30000, "removal:subtree": 9000, "removal:scattered": 12000, "blocked_lookups": 50000, "repairs_with_foreign_origin": 20000, "tries_with_mixed_origins": 1000, "warm_cache_repairs": 10000, "repaired_child_merged_into_parent": 8000, "synced_state_saved_and_reread": 8000, "repairs_from_layered_donor": 8000},
 		Assumptions: []string{
 			"the donor is a MemoryNodeDB (map iteration order = arbitrary repair order)",
 			"single-node removals are exhaustive up to 24 nodes per trie; other subsets are sampled",
